@@ -15,7 +15,8 @@ from harness.util import call, req, fmt
 
 PID = "C10"
 LEVEL = "exploration"
-RULE = ("Exhaustive part: every weak ordering (rank pattern) of length 2..6 (quick) / 2..7 (thorough; 52 608 patterns) as int16 and as "
+RULE = ("[seventh seeded round] sub-check 'blocks': mktrend on 4 equally shaped dask blocks of 1200 series x 110 steps evaluated by 8-16 threads at once (three times) must equal the in-memory result. " +
+        "Exhaustive part: every weak ordering (rank pattern) of length 2..6 (quick) / 2..7 (thorough; 52 608 patterns) as int16 and as "
         "float32 through the compiled gufunc, compared with a definition-level model (S by pair counting, tie-corrected variance, "
         "continuity-corrected Z, p = 2 sf(|Z|), Sen slope as median of pairwise slopes, flag = sign(Z)[p<0.05]). Generated part: series "
         "n 2..200 with heavy ties (int16 |x|<=16000, float32), through mann_kendall_trend_1d, both gufunc wrappers, "
@@ -211,7 +212,23 @@ def sub_critical(case):
     sub_definition({"x": [float(a * v + b) for v in x], "dtype": case["dtype"], "path": case["path"]})
 
 
-SUBS = {"critical": sub_critical, "definition": sub_definition, "invariance": sub_invariance, "nodata": sub_nodata, "history": sub_history}
+def sub_blocks(case):
+    """mktrend on a cube of long series cut into equally shaped dask blocks of several hundred pixels, evaluated by several threads at
+    once, against the in-memory call (tau, p, slope and flag alike)."""
+    import pandas as pd
+    import xarray as xr
+    from harness import lazyblocks
+
+    ny, nx, nt = case["shape"]
+    rng = np.random.default_rng(int(case["salt"]))  # a pure function of the case
+    cube = (rng.integers(-300, 300, size=(ny, nx, nt)) + (np.arange(nt)[None, None, :] * rng.integers(-3, 4, size=(ny, nx, 1)))).astype(case.get("dtype", "int16"))
+    da = xr.DataArray(cube, dims=("y", "x", "time"), coords={"time": pd.date_range("2000-01-01", periods=nt, freq="10D")}).transpose(*case["dims"])
+    if case.get("nodata") is not None:
+        da.attrs["nodata"] = case["nodata"]
+    lazyblocks.check("mktrend()", lambda d: d.hdc.algo.mktrend(), da, {"y": case["block"], "x": -1, "time": -1}, workers=case.get("workers", 8), repeats=case.get("repeats", 3))
+
+
+SUBS = {"blocks": sub_blocks, "critical": sub_critical, "definition": sub_definition, "invariance": sub_invariance, "nodata": sub_nodata, "history": sub_history}
 
 
 def weak_orderings(n):
@@ -271,6 +288,14 @@ def run(ctx):
     rec = ctx.rec
     if not _enumerate(ctx, ctx.n(6, 7)):
         return
+
+    # equally shaped dask blocks of several hundred long series in flight at the same time (state shared between concurrent gufunc calls)
+    for k in range(ctx.n(2, 8)):
+        case = {"shape": [8, 600, 110], "block": 2, "salt": ctx.seed * 17 + k, "workers": [8, 16][k % 2], "dims": [["time", "y", "x"], ["y", "x", "time"]][k % 2],
+                "dtype": ["int16", "float32"][k % 2], "nodata": [None, -9999][k % 2], "repeats": 3}
+        rec.case("blocks", case, nontrivial=True, cls="blocks:" + case["dtype"])
+        if not ctx.run_case("blocks", case):
+            break
 
     def f_def(case):
         xs = case["x"]
